@@ -90,16 +90,37 @@ def run(ctx):
     mem = [s for s in sites if isinstance(s[2], tuple) and s[2][0] == "drawn" and any("flat_map" in x for x in s[2][1]) and isinstance(s[3], tuple)]
     key = "K7|memory-self-edge-guard"
     ok = False
+    def _climb(bb0, levels=4):
+        """(switch block, taken target) pairs met when climbing the direct control dependences of bb0 (nearest first);
+        transitive dependences inside a loop contain both sides of every branch, so they cannot tell the polarity"""
+        out, frontier, seen_ = [], [bb0], set()
+        for _ in range(levels):
+            nxt = []
+            for b_ in frontier:
+                for sb_, tgt_ in sorted(f.control_deps(b_, transitive=False)):
+                    if (sb_, tgt_) in seen_:
+                        continue
+                    seen_.add((sb_, tgt_))
+                    out.append((sb_, tgt_))
+                    nxt.append(sb_)
+            frontier = nxt
+        return out
+
     for (bb, line, sc, tc, kinds, se, t) in mem:
-        for d in f.dominators().get(bb, set()):
-            tt = f.blocks[d]["t"]
+        for sb, tgt in _climb(bb):
+            tt = f.blocks[sb]["t"]
             if tt["k"] == "switch":
                 e = fn_expr_operand(f, tt["d"])
-                if e[0] == "call" and e[1].endswith("::ne") or (e[0] == "call" and e[1].endswith("::eq")):
-                    ok = True
+                if e[0] == "call" and e[1].rsplit("::", 1)[-1] in ("ne", "eq") and any(n_[0] == "field" and n_[2] == "node_id" for a_ in e[2] for n_ in _nodes22(a_)):
+                    # the edge is drawn on the side where the dependency is a DIFFERENT node
+                    false_targets = [target for v, target in tt["ts"] if int(v) == 0]
+                    on_true = bool(false_targets) and tgt not in false_targets
+                    if on_true == (e[1].rsplit("::", 1)[-1] == "ne"):
+                        ok = True
+                    break  # only the nearest comparison counts: farther ones are reached around the loop from both sides
     res.site(key, True, {"memory_edge_sites": len(mem), "verdict": "ok" if ok and mem else "VIOLATION"})
     if not (ok and mem):
-        res.find(key, f.loc(), "memory-dependency edges are not guarded by `dependency.node_id != node`: an instruction that reads and writes one region gets an edge to itself", "`ADD a 1` (reads and writes a): self-loop, the graph is not a DAG")
+        res.find(key, f.loc(), "memory-dependency edges are not drawn exactly when `dependency.node_id != node`: an instruction that reads and writes one region gets an edge to itself (or every real dependency is dropped)", "`ADD a 1` (reads and writes a): self-loop, the graph is not a DAG")
     # a classical instruction gets its BlockStart edge exactly when no memory edge was drawn into it: the flag that guards
     # the BlockStart -> node edge is cleared where (and only under the same self-edge guard as) the memory edge is added,
     # or is computed from that comparison.  Deriving it from "the dependency list is empty" is wrong: an in-place update
